@@ -14,7 +14,11 @@
                              if sent < len(data): write_backlog[0] = data[sent:] else: del write_backlog[0]`)
     callMeth                 `result = ssl_object_method(*args)` of `_retry_ssl_method`
     attempt                  one pass of `while True:` of `_retry_ssl_method` up to its first `await`
-    wrPart/afterWrLock/rdPart     `except SSLWantReadError:` flush under the send lock, then `readinto` under the recv lock
+    wrPart/afterWrLock/rdPart     `except SSLWantReadError:` flush under the send lock — taken only if something is pending AND no
+                             other task is already waiting for that lock (docs/C08-fix-2.patch) —, then `readinto` under the
+                             recv lock.  `St.wrPolicy` selects the two earlier versions of that test (`always` = before any
+                             fix, `pending` = docs/C08-fix-1.patch); they exist only for the negative theorems
+                             `C08_lockalways_deadlock` / `C08_fix1_residual_deadlock` and the driver options `lockalways` / `fix1`
     wwPart                   `except SSLWantWriteError:`
     okPart/afterOkLock       `else:` flush pending output unless the method is `read` (current code, after the F4b fix)
     failSsl                  `except SSLError: read_bio.write_eof(); write_bio.write_eof(); raise`
@@ -120,9 +124,19 @@ inductive Act where
 
 def upd {α : Type} (f : Tid → α) (t : Tid) (v : α) : Tid → α := fun u => if u = t then v else f u
 
+/-- when does the WANT_READ branch take the send lock ("Flush any pending writes first")?  A variant switch, never written
+    by the machine. -/
+inductive WrPolicy where
+  | always            -- code before the fix: `async with send_lock: if self._write_bio.pending: …` (unconditionally)
+  | pending           -- docs/C08-fix-1.patch: `if self._write_bio.pending: async with send_lock: …`
+  | pendingNoWaiter   -- docs/C08-fix-2.patch (the code this model mirrors):
+                      -- `if self._write_bio.pending and not self.__transport_send_lock_waiters: await self.__flush_pending_writes()`
+  deriving DecidableEq, Repr
+
 structure St (σ : Type) where
   eng : σ
   compat : Bool                  -- `_standard_compatible`
+  wrPolicy : WrPolicy := .pendingNoWaiter
   rbio : Bytes := []
   rEof : Bool := false
   wbio : List TB := []
@@ -282,17 +296,37 @@ def rdPart {σ : Type} (s : St σ) (t : Tid) (m : Meth) : St σ :=
   if (s.acquire t .recv).2 then ((s.acquire t .recv).1.log (.rcv t)).setPc t (.rdInto m)
   else (s.acquire t .recv).1.setPc t (.rdLock m)
 
-/-- send lock held in the WANT_READ branch: `if self._write_bio.pending: await send_all(self._write_bio.read())` -/
+/-- send lock held in the WANT_READ branch (`__flush_pending_writes()`): `if self._write_bio.pending: await send_all(self._write_bio.read())` -/
 def afterWrLock {σ : Type} (s : St σ) (t : Tid) (m : Meth) : St σ :=
   if s.wbio ≠ [] then
     ({ s with wbio := [], xmits := s.xmits ++ [s.wbio] }.log (.xmit t s.wbio)).setPc t (.wrSend m)
   else rdPart (s.release t .send) t m
 
-def wrPart {σ : Type} (s : St σ) (t : Tid) (m : Meth) : St σ :=
-  if (s.acquire t .send).2 then afterWrLock (s.acquire t .send).1 t m
-  else (s.acquire t .send).1.setPc t (.wrLock m)
+/-- the test in front of `await self.__flush_pending_writes()` in the WANT_READ branch.
+    `__transport_send_lock_waiters` (docs/C08-fix-2.patch) counts the tasks between the start of `send_lock.acquire()` and its
+    return in `__flush_pending_writes`: exactly the lock's queue (a task that finds the lock free is granted it without
+    suspension; a woken waiter stays counted — and queued — until it runs). -/
+def St.wantsSendLock {σ : Type} (s : St σ) : Bool :=
+  match s.wrPolicy with
+  | .always => true
+  | .pending => !s.wbio.isEmpty
+  | .pendingNoWaiter => !s.wbio.isEmpty && s.sendLock.waiters.isEmpty
 
-/-- send lock held in the WANT_WRITE branch: `await self._transport.send_all(self._write_bio.read())` (unconditional) -/
+/-- `except SSLWantReadError:` — "Flush any pending writes first":
+      `if self._write_bio.pending and not self.__transport_send_lock_waiters:   # checked BEFORE the lock
+           await self.__flush_pending_writes()     # acquire; if self._write_bio.pending: send_all(self._write_bio.read()); release
+       async with self.__transport_recv_lock: …`
+    Nothing pending: nothing to flush.  Somebody already queued on the send lock: every owner of that lock flushes all
+    that is pending when it gets it, so waiting behind it would add nothing — and the owner may be parked in `send_all`
+    until the peer reads, while the peer waits for us to read. -/
+def wrPart {σ : Type} (s : St σ) (t : Tid) (m : Meth) : St σ :=
+  if s.wantsSendLock = true then
+    (if (s.acquire t .send).2 then afterWrLock (s.acquire t .send).1 t m
+     else (s.acquire t .send).1.setPc t (.wrLock m))
+  else rdPart s t m
+
+/-- send lock held in the WANT_WRITE branch (`__flush_pending_writes(even_if_empty=True)`):
+    `await self._transport.send_all(self._write_bio.read())` (unconditional) -/
 def afterWwLock {σ : Type} (s : St σ) (t : Tid) (m : Meth) : St σ :=
   ({ s with wbio := [], xmits := s.xmits ++ [s.wbio] }.log (.xmit t s.wbio)).setPc t (.wwSend m)
 
